@@ -383,6 +383,17 @@ func manyValues(t *testing.T, n int) {
 	run(t, &Case{Data: spec, FullSweep: true, Reopens: []fix.OpenCfg{{CacheCap: -1}, {Preload: true, CacheCap: -1}}})
 }
 
+// onlyEmptyRows: rows were added, but none has any column.
+func onlyEmptyRows(t *testing.T) {
+	for _, n := range []int{1, 3, 1001} {
+		rows := make([]model.Row, n)
+		for i := range rows {
+			rows[i] = model.Row{}
+		}
+		run(t, &Case{Data: gen.DataSpec{Explicit: rows}, Reopens: []fix.OpenCfg{{CacheCap: -1}, {Preload: true, CacheCap: 1 << 20}}})
+	}
+}
+
 func prelude(t *testing.T, sizes []int) {
 	for wi, n := range sizes {
 		spec := gen.DataSpec{Recipe: &gen.Recipe{N: n, Cols: []gen.ColSpec{
@@ -526,6 +537,7 @@ func TestQuick(t *testing.T) {
 	if shard, _ := evid.Shard(); shard == 0 {
 		fix.Pinned(t, prop, replay)
 		prelude(t, []int{0, 1, 2, 999, 1000, 1001, 1002, 2001, 3001, 4097})
+		onlyEmptyRows(t)
 	}
 	if shard, _ := evid.Shard(); shard == 1 {
 		manyValues(t, 70001)
